@@ -430,8 +430,8 @@ theorem filter_loop (ext : Ext) (ltx : GoLContext) (B A M : Nat) (re : GoRegex) 
     expression's verdicts; the function returns normally (no panic: no index out of range, no queue operation that would
     block for ever, fuel for the `before` ring) -/
 theorem filter_refines (ext : Ext) (ltx : GoLContext) (B A M : Nat) (hB : ltx.BeforeContext = (B : Int))
-    (hA : ltx.AfterContext = (A : Int)) (hM : ltx.MaxCount = (M : Int)) (hfuel : B < ext.fuel) (f : readFile)
-    (raws : List GoString) (re : GoRegex) :
+    (hA : ltx.AfterContext = (A : Int)) (hM : ltx.MaxCount = (M : Int)) (hfuel : B < ext.fuel)
+    (hlim : (B : Int) ≤ 35184372088820) (f : readFile) (raws : List GoString) (re : GoRegex) :
     ∃ f', readFile.filterWithLContext ext f () ltx raws () re = Outcome.ok f' ∧
       sent f' = sent f ++ grun B A M (ginit M) (judged ext re raws) := by
   unfold readFile.filterWithLContext
@@ -439,6 +439,9 @@ theorem filter_refines (ext : Ext) (ltx : GoLContext) (B A M : Nat) (hB : ltx.Be
   by_cases hb : B > 0
   · have h1 : decide (ltx.BeforeContext > 0) = true := by rw [hB]; simp only [decide_eq_true_eq]; omega
     rw [if_pos h1]
+    have h2 : goMakeChanOk ltx.BeforeContext = true := by
+      rw [hB]; simp only [goMakeChanOk, decide_eq_true_eq]; omega
+    rw [if_pos h2]
     apply filter_loop ext ltx B A M re raws hfuel raws f _ (ginit M)
     exact { hA := hA
             pm := by show decide (ltx.MaxCount > 0) = decide (M > 0); rw [hM]; simp
@@ -466,5 +469,17 @@ theorem filter_refines (ext : Ext) (ltx : GoLContext) (B A M : Nat) (hB : ltx.Be
             ring := rfl
             rlen := by simp [ginit]
             mpos := fun h => Or.inl (by show 1 ≤ M; omega) }
+
+/-- the recorded C10 finding on the translated code: a `before` context beyond what `make(chan, n)` accepts makes the filter
+    panic before it reads a line -/
+theorem filter_huge_before_panics (ext : Ext) (ltx : GoLContext) (hB : ltx.BeforeContext > 35184372088820) (f : readFile)
+    (raws : List GoString) (re : GoRegex) :
+    readFile.filterWithLContext ext f () ltx raws () re = Outcome.panic "index out of range" := by
+  unfold readFile.filterWithLContext
+  simp only []
+  have h1 : decide (ltx.BeforeContext > 0) = true := by simp only [decide_eq_true_eq]; omega
+  have h2 : ¬ goMakeChanOk ltx.BeforeContext = true := by
+    simp only [goMakeChanOk, decide_eq_true_eq]; omega
+  rw [if_pos h1, if_neg h2]
 
 end Dtail.GenGrep
